@@ -162,8 +162,8 @@ def replay(pid, path):
 MANIFEST_C10 = dict(engine='explore+tlc-trace', ref='DESIGN.md section 6 C10',
    technique='TLC model checking of ScpiErrQueue.tla + TLC validation of every operation of the explored implementation state graph and of random histories with injected allocation failures',
    text='TLC checks the queue state machine (bounded FIFO, overflow marker, ownership) for capacities 1..3; the real queue is driven through every abstract state incl. ring indices for capacities 1..3 (4 thorough) in the malloc and no-info builds with wrapped strndup/free and injected allocation failures, and every recorded operation (content, popped value, count, allocations, releases) is validated by TLC against the specification; random histories up to 3x10^5 operations.',
-   note='Trusted: TLC, link-time wrapping of strndup/free, ASan/LSan. Texts in the exploration alphabet are short (<= 2 bytes); long texts are covered by C18.')
+   note='Queues of up to 32767 entries are validated step by step against ScpiStatus (drv_status bigq). Trusted: TLC, link-time wrapping of strndup/free, ASan/LSan. Texts in the exploration alphabet are short (<= 2 bytes); long texts are covered by C18.')
 MANIFEST_C18 = dict(engine='tlc-trace', ref='DESIGN.md section 6 C18',
    technique='TLC model checking of the response lemmas + TLC validation of recorded SYST:ERR? responses against ErrResponse',
    text='TLC checks the response composition (escaping, 255-character cut, maximality) on small limits exhaustively and validates every recorded response of the real library for codes with/without description and texts of length 0..400 with quotes around the cut position, in the malloc and static-heap builds.',
-   note='Trusted: TLC; description table transcribed once from error.h. An empty text may or may not show the semicolon.')
+   note='Trusted: TLC; the description table is generated for every run from error.h of the tree under test (plus the user error list of the usererr verification build). An empty text may or may not show the semicolon.')
